@@ -199,17 +199,17 @@ Definition C19_single_terminates_statement : Prop :=
    FOR X=1E38 TO 1.7E38 STEP 1E38 prints the Overflow message once and ends with machine infinity *)
 Example C19_single_nonvacuous :
   let one := [0; 0; 0; 129] in let tenth := [205; 204; 76; 125] in
-  (length (body_values (fst (s_for 100 false [0;0;0;0] one tenth))) = 10%nat /\
-   snd (s_for 100 false [0;0;0;0] one tenth) = S_finished /\
-   In (EvBody [104; 102; 102; 128]) (fst (s_for 100 false [0;0;0;0] one tenth)) /\
-   In (EvAfter [1; 0; 0; 129]) (fst (s_for 100 false [0;0;0;0] one tenth))) /\
+  s_for 100 false [0;0;0;0] one tenth =
+    ([EvBody [0; 0; 0; 0]; EvBody [205; 204; 76; 125]; EvBody [205; 204; 76; 126]; EvBody [154; 153; 25; 127];
+      EvBody [205; 204; 76; 127]; EvBody [0; 0; 0; 128]; EvBody [154; 153; 25; 128]; EvBody [52; 51; 51; 128];
+      EvBody [206; 204; 76; 128]; EvBody [104; 102; 102; 128]; EvAfter [1; 0; 0; 129]], S_finished) /\
   (forall fuel, s_loop fuel false [119; 204; 43; 102] [0; 0; 0; 130] one = (repeat (EvBody one) fuel, S_no_end)) /\
   (forall fuel, s_loop fuel false one [1; 0; 0; 153] [0; 0; 0; 153]
                 = (repeat (EvBody [0; 0; 0; 153]) fuel, S_no_end)) /\
-  enc_sfor (s_for 100 false [118; 118; 22; 255] [255; 255; 127; 255] [118; 118; 22; 255])
-    = [0; 30326; -234; 77777; -1; -129].
+  enc_sfor (s_for 100 false [153; 118; 22; 255] [158; 201; 127; 255] [153; 118; 22; 255])
+    = [0; 30361; -234; 77777; -1; -129].
 Proof.
-  split; [repeat split; vm_compute; auto 20|].
+  split; [vm_compute; reflexivity|].
   split; [apply s_loop_stuck; vm_compute; reflexivity|].
   split; [apply s_loop_stuck; vm_compute; reflexivity|].
   vm_compute. reflexivity.
